@@ -163,9 +163,9 @@ arr_real resample(const arr_real& x, int p_, int q_, const arr_real& h) {
 
     FIRResampler rsmp(p, q, h);
     const int nx = IResampler::next_size(x.size(), p, q);
-    const int ny = nx * p / q;
+    const int ny = int(int64_t(nx) * p / q);   //nx * p exceeds the int range for long records (minutes of audio)
     const int dl = rsmp.delay();
-    const int mdl = (dl * q + p - 1) / p;   //input samples needed to produce 'dl' extra output samples (round up)
+    const int mdl = int((int64_t(dl) * q + p - 1) / p);   //input samples needed to produce 'dl' extra output samples (round up)
     const int nn = IResampler::next_size(nx + mdl, p, q);
     const auto xx = zeropad(x, nn);
     const auto y = *rsmp.process(xx).slice(dl, dl + ny);
